@@ -165,6 +165,14 @@ def case(seed, idx, tier):
     res['digest'] = digest(res['key'], ev.res.history if ev.res is not None else None, found)
     if idx in (0, N_SINGLE + 3, N_SINGLE + N_LEN + 14, N_SINGLE + N_LEN + 30):
         res['sample'] = dict(common.sample_of(p, [], ev, 600), job=label)
+    if not found and ev.built.lines is not None:
+        # constants must survive the way a real user's file reaches the compiler, too
+        fp = common.file_path_problem(ev.src, W, stack=400)
+        res['counters']['file_path_compiles'] = 1
+        if fp:
+            res['violations'].append({'cls': fp[0], 'detail': fp[1], 'fingerprint': None,
+                                      'payload': common.payload(p, [], ev, {'job': label, 'file_path': True}),
+                                      'sample': common.sample_of(p, [], ev, 600)})
     if found:
         common.report(res, p, [], cfg, found, ev, extra={'job': label}, budget_s=10)
     return res
@@ -178,4 +186,11 @@ def finalize(cov, agg):
 
 
 def replay(pl):
-    return common.generic_replay(pl)
+    out = common.generic_replay(pl)
+    if pl.get('extra', {}).get('file_path') or not out:
+        src = pl.get('src')
+        if src is not None:
+            fp = common.file_path_problem(src, pl['cfg']['W'], stack=400)
+            if fp:
+                out = list(out) + [{'cls': fp[0], 'detail': fp[1], 'fingerprint': None}]
+    return out
